@@ -90,7 +90,7 @@ func Copy(ctx context.Context, srcRoot, src, dstRoot, dst string, opts ...Opt) e
 		if createdDirs, err := MkdirAll(ensureDstPath, os.FileMode(perm), ci.Chown, ci.Utime); err != nil {
 			return err
 		} else {
-			defer fixCreatedParentDirs(createdDirs, ci.Utime)
+			defer fixCreatedParentDirs(dstRoot, createdDirs, ci.Utime)
 		}
 	}
 
@@ -135,7 +135,7 @@ func Copy(ctx context.Context, srcRoot, src, dstRoot, dst string, opts ...Opt) e
 		if err != nil {
 			return err
 		}
-		defer fixCreatedParentDirs(createdDirs, ci.Utime)
+		defer fixCreatedParentDirs(dstRoot, createdDirs, ci.Utime)
 		if err := c.copy(ctx, srcFollowed, "", dst, false, patternmatcher.MatchInfo{}, patternmatcher.MatchInfo{}); err != nil {
 			return err
 		}
@@ -729,10 +729,27 @@ func rel(basepath, targpath string) (string, error) {
 	return filepath.Rel(basepath, targpath)
 }
 
-func fixCreatedParentDirs(dirs []string, tm *time.Time) error {
+// stillBelow reports whether dir, a path that fs.RootPath produced below root,
+// still resolves to itself: none of its components has since been replaced by
+// a symlink.
+func stillBelow(root, dir string) bool {
+	rel, err := filepath.Rel(root, dir)
+	if root == "" || err != nil || rel == "." || rel == ".." || strings.HasPrefix(rel, ".."+string(filepath.Separator)) {
+		// not below root: nothing a source could have replaced
+		return true
+	}
+	p, err := fs.RootPath(root, rel)
+	return err == nil && p == dir
+}
+
+func fixCreatedParentDirs(root string, dirs []string, tm *time.Time) error {
 	slices.Reverse(dirs)
 	for _, d := range dirs {
 		if tm != nil {
+			if !stillBelow(root, d) {
+				// a later source replaced part of the path: not ours anymore
+				continue
+			}
 			if err := Utimes(d, tm); err != nil {
 				return err
 			}
